@@ -3,7 +3,7 @@ from . import streams_metric, streams_gradation, streams_reconpar, cli
 from .common import Stream
 
 ID = 'C10'
-PROPS_MODULE = ['Refine.Props.C10', 'Refine.Props.C10Gradation']
+PROPS_MODULE = ['Refine.Props.C10', 'Refine.Props.C10Gradation', 'Refine.Props.C10Par']
 
 
 def _gen_multiscale_mpi(rng, tier, np):
